@@ -144,7 +144,7 @@ example : load (.obj [(cs!"x", .obj [(cs!"node_id", .str cs!" 7 "), (cs!"node_ty
 `saveText r` is the text `save` writes (`json.dumps(…, sort_keys=True, indent=2)` of the schema dump);
 `JsonText.parse` is `json.loads`.  Hypotheses beyond `RegOK`: every integer attribute is printable
 (`regIntsOK`: `json.dumps` raises beyond the interpreter's digit limit; `RegOK` only bounds keys, id and
-battery level) and the registry is the canonical representative of its dict-equality class (`Canon`:
+battery level; proved for every reachable registry, `reachable_regIntsOK`) and the registry is the canonical representative of its dict-equality class (`Canon`:
 keys in increasing order at the three levels, no `reboot` flag) — `sort_keys` writes every registry in
 that order (`saveSorted` sorts first), and `load` returns the dicts in file order. -/
 
@@ -172,9 +172,52 @@ theorem saved_text_round_trip_any (r : PDict Int Node) (h : RegOK r) (hi : regIn
 
 /-- `regIntsOK` is a separate hypothesis: `RegOK` bounds dict keys, node id and battery level only,
 and a node type, heartbeat, child id or child type beyond the interpreter's digit limit makes
-`json.dumps` raise.  (That reachable registries satisfy it is checked by the correspondence run's
-domain predicate, not proved.)  The unsorted boundary registry satisfies both. -/
+`json.dumps` raise.  (Reachable registries satisfy it: `reachable_regIntsOK` below.)  The unsorted
+boundary registry satisfies both. -/
 example : RegOK boundaryReg ∧ regIntsOK boundaryReg = true := by decide
+
+/-- The limit counts digits, not the sign (as `str(int)`, `json.dumps` and `int(str)` do: `str(-(10**4299))`
+has 4301 characters and is printed, `str(10**4300)` raises): a number is printable iff its negation is. -/
+theorem intOK_neg (n : Int) : intOK (-n) = intOK n := by simp [intOK, Int.natAbs_neg]
+
+/-! ### … for every registry the gateway can reach, without the hypothesis on the integers -/
+
+/-- **Every registry the gateway can reach from received messages (and `send` calls) has printable
+integers**, from any starting registry that has (a loaded file, or empty), for every history,
+environment and write-fault schedule: every node type, child id and child type a handler stores is a
+field `decode` read with `int()`, the heartbeat is `int(payload)` — at most `Gen.pyMaxStrDigits` digits
+were read, so `str()` of the value has at most that many (`pyInt?_keyOK`; the sign is not counted by
+either) —, and the remaining ones are the placeholder node's constants and the default 0. -/
+theorem reachable_regIntsOK (st : St) (ops : List Op) (h : regIntsOK st.nodes = true) :
+    regIntsOK (runOps st ops).nodes = true :=
+  runOps_regIntsOK st ops h
+
+theorem reachable_ints_from_empty (ops : List Op) : regIntsOK (runOps {} ops).nodes = true :=
+  runOps_regIntsOK {} ops rfl
+
+/-- **Round trip through the text for reachable registries**, no hypothesis left: after any history
+from the empty gateway, the text `save` writes parses (`json.loads`) to the value handed to `json.dumps`,
+which loads to the registry's canonical representative (the same dicts in file order, `reboot` cleared). -/
+theorem reachable_saved_text_round_trip (ops : List Op) :
+    JsonText.parse (saveText (runOps {} ops).nodes) = .ok (saveSorted (runOps {} ops).nodes) ∧
+    load (saveSorted (runOps {} ops).nodes) = .ok (canonOf (runOps {} ops).nodes) :=
+  saved_text_round_trip_any _ (reachable_from_empty ops) (reachable_ints_from_empty ops)
+
+/-- The same from any starting registry within the domain (e.g. one loaded from a file). -/
+theorem reachable_saved_text_round_trip_from (st : St) (ops : List Op) (h : RegOK st.nodes)
+    (hi : regIntsOK st.nodes = true) :
+    JsonText.parse (saveText (runOps st ops).nodes) = .ok (saveSorted (runOps st ops).nodes) ∧
+    load (saveSorted (runOps st ops).nodes) = .ok (canonOf (runOps st ops).nodes) :=
+  saved_text_round_trip_any _ (reachable_regok st ops h) (reachable_regIntsOK st ops hi)
+
+/-- … and from the bytes of the file through the whole of `Persistence.load`. -/
+theorem reachable_saved_bytes_accepted (ops : List Op) :
+    (JsonText.classify (saveBytes (runOps {} ops).nodes)).map (loadFile []) =
+      some (.ok ⟨canonOf (runOps {} ops).nodes, none⟩) := by
+  have h := reachable_from_empty ops
+  have hi := reachable_ints_from_empty ops
+  rw [← saveBytes_canonOf _ h]
+  exact saved_bytes_accepted _ (regOK_canonOf _ h) (regIntsOK_canonOf _ hi) (canon_canonOf _ h)
 
 /-- The written text is ASCII: its byte length is its character length. -/
 theorem saved_text_ascii (r : PDict Int Node) : (saveBytes r).length = (saveText r).length :=
